@@ -183,7 +183,7 @@ def gen_malformed(r, keys, maxlen=60):
 
 
 # ------------------------------------------------------------------ flat schema cases
-KINDS = ["R", "I", "B", "S", "V", "N1", "N2", "N3", "K", "T3", "T4", "T2", "T5", "R!", "S!", "B!", "T3!"]
+KINDS = ["R", "I", "B", "S", "V", "N1", "N2", "N3", "K", "T3", "T4", "T2", "T5", "R!", "S!", "B!", "T3!", "U", "U", "L", "J", "W"]
 
 
 def value_for(r, kind, good=True):
@@ -206,6 +206,16 @@ def value_for(r, kind, good=True):
         if m < 0.85:
             return "(" + ", ".join([r.choice(BAD_NUMBER_TOKENS)] + toks[1:]) + ")"
         return " ".join(toks)                                  # no parentheses
+    if kind == "U":
+        return r.choice(["0", "5", "+7", "18446744073709551615", "00012", "4294967296"] if good else
+                        ["-5", "-0", "-18446744073709551615", "18446744073709551616", "5.5", "0x10", "1e3", "abc", "5 6", "5-", "inf"])
+    if kind == "L":
+        return r.choice(["0", "-5", "+7", "9223372036854775807", "-9223372036854775808", "2147483648"] if good else
+                        ["9223372036854775808", "-9223372036854775809", "5.5", "0x10", "1e3", "abc", "5 6", "nan"])
+    if kind == "J":
+        return " ".join(r.choice(INT_TOKENS) for _ in range(r.randint(1, 5))) if good else r.choice(["1 2 x 3", "1.5 2", "1 2147483648", "abc", "1,2", "1 2-"])
+    if kind == "W":
+        return " ".join(r.choice(WORDS + ["{x}", "\"q\"", "a#b"][:2]) for _ in range(r.randint(1, 4))) if good else ""
     if kind == "R":
         return r.choice(NUMBER_TOKENS if good else BAD_NUMBER_TOKENS + ["1 2", "1 abc", "0.5 .", "2 1e"])
     if kind == "I":
@@ -426,7 +436,8 @@ def gen_nested_case(r):
     elif m < 0.85:
         tag = "unknown-keyword"
         i = r.randrange(len(lines) + 1)
-        lines.insert(i, rws(r, 4, True) + r.choice([b"fooBar 1", b"widthh 0.5", b"x", b"atomNumbers_ 1 2"]))
+        lines.insert(i, rws(r, 4, True) + r.choice([b"fooBar 1", b"widthh 0.5", b"x", b"atomNumbers_ 1 2",
+                                                    b"fooBlock {\n  width 1\n}", b"fooBlock { width 1 }", b"group9 {\n  atomNumbers 1\n  fooBar 2\n}"]))
     elif m < 0.93:
         tag = "brace"
         idx = [i for i, l in enumerate(lines) if b"{" in l or b"}" in l]
